@@ -19,6 +19,12 @@ inductive Handler where
   | substack | proof | bibCite | footcite | xspace
   | gls (key : Str) (capFirst capAll : Bool) | newacronym | newglossaryentry | parseGlsdefs
   | opaqueH (name : Str)
+  /-- cleveref: `h_read_sed`, `h_cref_warning`, and the closures `h_make_cref(refs[ref])` /
+      `h_make_crefrange(refs[ref])` with their captured dictionaries (`''` and `'*'` part; insertion
+      order, a later entry for the same key overrides an earlier one) -/
+  | readSed | crefWarn
+  | cref (plain star : List (Str × Str))
+  | crefrange (plain star : List ((Str × Str) × Str))
 deriving Repr, DecidableEq, Inhabited
 
 inductive ItemStyle where
@@ -59,7 +65,18 @@ structure ModuleDef where
   addIgnore : List Str := []
   addsGlobalOptions : Bool := false
   babelInject : Bool := false       -- inject_tokens = get_language_token(global + options)
-  isOpaque : Bool := false          -- not modelled (cleveref)
+  isOpaque : Bool := false          -- not modelled
+  /-- cleveref: inject_tokens = latex_error(msg_poorman_option) unless an option is / has value 'poorman' -/
+  crefInject : Bool := false
+deriving Repr, Inhabited
+
+/-- message texts of `packages/cleveref.py` (translated).  The two `…Undef` messages are Python
+    format strings: the literal pieces around the fields `{:}` -/
+structure CrefMsgs where
+  poorman : Str := []
+  sedNotLoaded : Str := []
+  crefUndef : List Str := []
+  crefrangeUndef : List Str := []
 deriving Repr, Inhabited
 
 /-- translated constant data of the expander (extends `Tables`) -/
@@ -90,6 +107,7 @@ structure PTables extends Tables where
   foreignBrk : Bool
   selectBrk : Bool
   otherBrk : Bool
+  crefMsgs : CrefMsgs := {}
 deriving Repr, Inhabited
 
 /-! ### parser state -/
